@@ -95,6 +95,7 @@ func extra(schema *schemabuilder.Schema) {
 		}
 		return mkShapes(args.Id)
 	})
+	methods(schema)
 }
 
 // ---------- advertised type model ----------
@@ -527,6 +528,7 @@ type Case struct {
 	Spec  *world.Spec `json:"spec"`
 	Modes world.Modes `json:"modes"`
 	Query string      `json:"query"`
+	Sel   []*Node     `json:"sel,omitempty"`
 	Ill   string      `json:"ill,omitempty"`
 	IllKind string    `json:"ill_kind,omitempty"`
 }
@@ -564,6 +566,36 @@ func exec(b *world.Bound, q string) (interface{}, string, error) {
 	return res, "", nil
 }
 
+// wellformed runs the oracles for a query that is well-formed against the advertised schema:
+// accepted, executes, and the response conforms to the advertised types.
+func wellformed(b *world.Bound, model *Model, root []*Node, q string) (confStats, string, error) {
+	var st confStats
+	res, stage, err := exec(b, q)
+	if err != nil {
+		switch stage {
+		case "parse":
+			return st, "harness", fmt.Errorf("harness: generated query does not parse: %v\n%s", err, q)
+		case "prepare":
+			return st, "wellformed-rejected", fmt.Errorf("a query that is well-formed against the advertised schema was rejected: %v", err)
+		default:
+			return st, "accepted-but-fails", fmt.Errorf("validation accepted the query but execution failed: %v", err)
+		}
+	}
+	raw, _ := json.Marshal(res)
+	dec := json.NewDecoder(strings.NewReader(string(raw)))
+	dec.UseNumber()
+	var tree interface{}
+	dec.Decode(&tree)
+	qt := TypeRef{Kind: "OBJECT", Name: model.Query}
+	if err := model.conform(tree, qt, root, "", &st, false); err != nil {
+		if strings.HasPrefix(err.Error(), "harness:") {
+			return st, "harness", err
+		}
+		return st, "nonconforming", fmt.Errorf("response does not conform to the advertised schema: %v\nresponse: %s", err, jv.CanonBytes(raw))
+	}
+	return st, "", nil
+}
+
 func TestAdvertised(t *testing.T) {
 	rapid.Check(t, func(t *rapid.T) {
 		s := world.GenSpec(t)
@@ -581,34 +613,17 @@ func TestAdvertised(t *testing.T) {
 			keyCounter = 0
 			root := model.genSel(t, model.Query, rapid.IntRange(1, 4).Draw(t, "depth"), false)
 			q := text(root)
-			c := Case{Spec: s, Modes: modes, Query: q}
+			c := Case{Spec: s, Modes: modes, Query: q, Sel: root}
 			fail := func(sig string, err error) {
 				p := rec.Violate("TestAdvertised", c, sig+": "+err.Error())
 				t.Fatalf("%s: %v\nquery: %s (replay %s)", sig, err, q, p)
 			}
-			res, stage, err := exec(b, q)
+			st, sig, err := wellformed(b, model, root, q)
 			if err != nil {
-				switch stage {
-				case "parse":
-					t.Fatalf("harness: generated query does not parse: %v\n%s", err, q)
-				case "prepare":
-					fail("wellformed-rejected", fmt.Errorf("a query that is well-formed against the advertised schema was rejected: %v", err))
-				default:
-					fail("accepted-but-fails", fmt.Errorf("validation accepted the query but execution failed: %v", err))
-				}
-			}
-			raw, _ := json.Marshal(res)
-			dec := json.NewDecoder(strings.NewReader(string(raw)))
-			dec.UseNumber()
-			var tree interface{}
-			dec.Decode(&tree)
-			var st confStats
-			qt := TypeRef{Kind: "OBJECT", Name: model.Query}
-			if err := model.conform(tree, qt, root, "", &st, false); err != nil {
-				if strings.HasPrefix(err.Error(), "harness:") {
+				if sig == "harness" {
 					t.Fatalf("%v", err)
 				}
-				fail("nonconforming", fmt.Errorf("response does not conform to the advertised schema: %v\nresponse: %s", err, jv.CanonBytes(raw)))
+				fail(sig, err)
 			}
 			nt := st.null && st.empty && st.union
 			labels := []string{"wellformed"}
@@ -629,7 +644,7 @@ func TestAdvertised(t *testing.T) {
 				continue
 			}
 			c.Ill, c.IllKind = ill, kind
-			_, stage, err = exec(b, ill)
+			_, stage, err := exec(b, ill)
 			if err == nil || stage == "execute" {
 				p := rec.Violate("TestAdvertised", c, fmt.Sprintf("illformed-accepted: %s variant passed validation (stage %q, err %v)", kind, stage, err))
 				t.Fatalf("ill-formed query (%s) passed validation (stage %q, err %v):\n%s (replay %s)", kind, stage, err, ill, p)
@@ -655,7 +670,8 @@ func TestReplay(t *testing.T) {
 	if err != nil {
 		t.Fatalf("harness: %v", err)
 	}
-	if _, err := introspect(b.Schema); err != nil {
+	model, err := introspect(b.Schema)
+	if err != nil {
 		t.Fatalf("introspection failed: %v", err)
 	}
 	if c.Ill != "" {
@@ -665,9 +681,131 @@ func TestReplay(t *testing.T) {
 		}
 		return
 	}
+	if c.Sel != nil {
+		if _, sig, err := wellformed(b, model, c.Sel, c.Query); err != nil {
+			rec.Violate("TestReplay", c, sig+": "+err.Error())
+			t.Fatalf("%s: %v", sig, err)
+		}
+		return
+	}
 	if _, stage, err := exec(b, c.Query); err != nil {
 		rec.Violate("TestReplay", c, stage+": "+err.Error())
 		t.Fatalf("%s: %v", stage, err)
 	}
-	t.Log("replay of conformance failures needs the generated selection tree: re-run by seed")
+}
+
+// TestMethodShapes concentrates on the Shapes object: random selections over its struct
+// fields and over every (result type x registration form) method, under the list field and
+// under the nullable single-object field.
+func TestMethodShapes(t *testing.T) {
+	b, model, err := shapesModel()
+	if err != nil {
+		t.Fatalf("harness: %v", err)
+	}
+	rapid.Check(t, func(t *rapid.T) {
+		keyCounter = 0
+		var root []*Node
+		for _, f := range model.Types[model.Query].Fields {
+			f := f
+			if f.Name != "shapes" && f.Name != "shape" {
+				continue
+			}
+			if !rapid.Bool().Draw(t, "use-"+f.Name) && !(f.Name == "shape" && len(root) == 0) {
+				continue
+			}
+			keyCounter++
+			nd := &Node{Kind: "field", Name: f.Name, fd: &f, Key: fmt.Sprintf("k%d_%s", keyCounter, f.Name), HasSub: true}
+			if f.Name == "shape" {
+				nd.Args = fmt.Sprintf("(id: %d)", rapid.IntRange(-1, 7).Draw(t, "id"))
+			}
+			nd.Sub = model.genSel(t, "Shapes", rapid.IntRange(1, 2).Draw(t, "depth"), f.Name == "shapes")
+			root = append(root, nd)
+		}
+		q := text(root)
+		c := Case{Spec: world.BaseSpec(), Modes: world.Modes{}, Query: q, Sel: root}
+		st, sig, err := wellformed(b, model, root, q)
+		if err != nil {
+			if sig == "harness" {
+				t.Fatalf("%v", err)
+			}
+			p := rec.Violate("TestMethodShapes", c, sig+": "+err.Error())
+			t.Fatalf("%s: %v\nquery: %s (replay %s)", sig, err, q, p)
+		}
+		var forms []string
+		for _, pre := range []string{"b_", "bn_", "bf_", "fx_"} {
+			if strings.Contains(q, " "+pre) || strings.Contains(q, "_"+pre) {
+				forms = append(forms, "form:"+pre)
+			}
+		}
+		nt := st.null && len(forms) > 0
+		rec.Case("shapes"+q, nt, append(forms, "methodshapes")...)
+		if nt {
+			rec.Sample("methodshapes", map[string]interface{}{"query": q})
+		}
+	})
+}
+
+// TestPinned selects every field of Shapes on its own, under the list field (ids 0-5: every
+// nil / empty / missing-index combination of mkShapes and methods) and under shape(id:).
+func TestPinned(t *testing.T) {
+	b, model, err := shapesModel()
+	if err != nil {
+		t.Fatalf("harness: %v", err)
+	}
+	minimal := func(fd FieldDef) []*Node {
+		named := fd.Type.named()
+		switch model.Types[named.Name].Kind {
+		case "OBJECT":
+			for _, sf := range model.Types[named.Name].Fields {
+				sf := sf
+				if k := model.Types[sf.Type.named().Name].Kind; k == "SCALAR" || k == "ENUM" {
+					return []*Node{{Kind: "field", Name: sf.Name, Key: sf.Name, fd: &sf}}
+				}
+			}
+			return []*Node{{Kind: "field", Name: "__typename", Key: "__typename"}}
+		case "UNION":
+			return []*Node{{Kind: "field", Name: "__typename", Key: "__typename"}}
+		}
+		return nil
+	}
+	var shapesFd, shapeFd FieldDef
+	for _, f := range model.Types[model.Query].Fields {
+		switch f.Name {
+		case "shapes":
+			shapesFd = f
+		case "shape":
+			shapeFd = f
+		}
+	}
+	n := 0
+	for _, f := range model.Types["Shapes"].Fields {
+		f := f
+		if strings.HasPrefix(f.Name, "__") {
+			continue
+		}
+		leaf := &Node{Kind: "field", Name: f.Name, Key: f.Name, fd: &f, Sub: minimal(f)}
+		leaf.HasSub = leaf.Sub != nil
+		roots := [][]*Node{
+			{{Kind: "field", Name: "shapes", Key: "shapes", fd: &shapesFd, HasSub: true, Sub: []*Node{leaf}}},
+			{{Kind: "field", Name: "shape", Key: "shape", Args: "(id: 3)", fd: &shapeFd, HasSub: true, Sub: []*Node{leaf}}},
+			{{Kind: "field", Name: "shape", Key: "shape", Args: "(id: -1)", fd: &shapeFd, HasSub: true, Sub: []*Node{leaf}}},
+		}
+		for _, root := range roots {
+			q := text(root)
+			st, sig, err := wellformed(b, model, root, q)
+			if err != nil {
+				if sig == "harness" {
+					t.Fatalf("%v", err)
+				}
+				rec.Violate("TestPinned-"+f.Name, Case{Spec: world.BaseSpec(), Modes: world.Modes{}, Query: q, Sel: root}, sig+": "+err.Error())
+				t.Errorf("%s: %v\nquery: %s", sig, err, q)
+				continue
+			}
+			n++
+			rec.Case("pinned"+q, st.null, "pinned-field")
+		}
+	}
+	if n < 300 {
+		t.Errorf("harness: only %d pinned single-field queries ran", n)
+	}
 }
